@@ -304,6 +304,43 @@ func runC16(c *Ctx) {
 		}
 	}
 	c.R.Set("sources_in_an_earlier_rate_period", nOld)
+	// sources that carry a rounding adjustment in their totals (the one member of
+	// the totals that is given, not calculated): business content a replica keeps
+	nRnd := 0
+	for k, it := range invs {
+		if k%3 != 0 {
+			continue
+		}
+		docB, err := gx.DocJSON(it.Data)
+		if err != nil {
+			continue
+		}
+		d, err := jmut.Parse(docB)
+		if err != nil || d.Get("totals") == nil {
+			continue
+		}
+		cur := str(d, "currency")
+		rnd := "0.03"
+		if cur == "JPY" || cur == "CLP" || cur == "COP" {
+			rnd = "3"
+		}
+		d.Set("totals", jmut.O(jmut.Member{Key: "rounding", Val: jmut.S(rnd)}))
+		var b []byte
+		var verr error
+		if p, _ := Safely(func() {
+			env, e := gx.EnvelopDoc(d.Bytes())
+			if verr = e; e == nil {
+				if verr = env.Validate(); verr == nil {
+					b, verr = json.Marshal(env)
+				}
+			}
+		}); p != nil || verr != nil {
+			continue
+		}
+		sources = append(sources, source{it, b, "preset-rounding", map[string]string{}})
+		nRnd++
+	}
+	c.R.Set("sources_with_a_rounding_adjustment", nRnd)
 	type job struct {
 		s source
 		o c16opts
